@@ -315,3 +315,59 @@ Definition webkit_req : rmsg :=
   mkRmsg (B "POST") (B "http://h/") (B "HTTP/1.1") (B "h") 9 []
          [(B "Content-Type", [B "Multipart/Form-Data; Boundary=----WebKitFormBoundary7MA4YWxkTrZu0gW"])]
          (B "multipart") [] [].
+
+(* ------------- the (ContentLength, TransferEncoding, Body) triple, freely *)
+Theorem unframed_body_b_iff : forall m,
+  unframed_body_b m = false <-> ((q_cl m <= 0)%Z -> q_te m = [] -> q_body m = []).
+Proof.
+  intros m. unfold unframed_body_b, has_framing. rewrite negb_involutive.
+  destruct (Z.leb (q_cl m) 0) eqn:C; cbn [andb].
+  - apply Z.leb_le in C. destruct (q_te m) as [|t r]; cbn [is_nil andb].
+    + destruct (q_body m); cbn; split; intro H; try reflexivity; try discriminate; auto.
+      exfalso. specialize (H C eq_refl). discriminate.
+    + split; [intros _ _ H; discriminate|reflexivity].
+  - apply Z.leb_gt in C. split; [intros _ H; lia|reflexivity].
+Qed.
+
+(* whatever ContentLength says, a request that carries a framing is logged
+   with the whole Body *)
+Theorem postdata_with_framing_any_length : forall X o m e,
+  law_dechunk X -> NoDup (keys (q_hdrs m)) -> has_framing m = true ->
+  har_req X o m = Ok e -> post_spec X (capture o (q_hdrs m)) m e.
+Proof.
+  intros X o m e L ND HF H. apply (postdata_is_origin_body X o m e L); [|exact H].
+  split; [exact ND|]. intros C T. unfold has_framing in HF.
+  apply Z.leb_le in C. rewrite C, T in HF. discriminate.
+Qed.
+
+(* the response content does not depend on the ContentLength field at all *)
+Definition with_cl (m : pmsg) (cl : Z) : pmsg :=
+  mkPmsg (s_status m) (s_proto m) cl (s_te m) (s_hdrs m) (s_body m) (s_cookies m).
+
+Theorem response_content_ignores_content_length : forall X o m cl,
+  match har_res X o m, har_res X o (with_cl m cl) with
+  | Ok e, Ok e' => e_content e = e_content e'
+  | Err, Err => True
+  | _, _ => False
+  end.
+Proof.
+  intros X o m cl. unfold har_res, with_cl. cbn [s_status s_proto s_cl s_te s_hdrs s_body s_cookies].
+  destruct (negb (capture o (s_hdrs m))); [reflexivity|].
+  destruct (if is_chunked (s_te m) then _ else _) as [b|]; [|exact I].
+  destruct (if beq _ (B "gzip") then _ else _) as [t|]; [reflexivity|exact I].
+Qed.
+
+(* the unframed body: ContentLength 0, no transfer coding, Body "xyz" — the
+   transport would send it, the entry has no post data *)
+Definition unframed_req : rmsg :=
+  mkRmsg (B "POST") (B "http://h/") (B "HTTP/1.1") (B "h") 0 []
+         [(B "Content-Type", [B "text/plain"])] (B "xyz") [] [].
+
+Theorem postdata_refuted_unframed : exists X m e,
+  law_dechunk X /\ NoDup (keys (q_hdrs m)) /\ har_req X OAll m = Ok e /\ ~ post_spec X true m e.
+Proof.
+  exists (toyX Some Some Some), unframed_req. eexists.
+  destruct (toy_laws Some Some Some) as [_ [_ C]]. split; [exact C|]. split.
+  - cbn. constructor; [intros []|constructor].
+  - split; [vm_compute; reflexivity|]. vm_compute. discriminate.
+Qed.
